@@ -1,13 +1,11 @@
 //! C01 — default rules preserve program behaviour.
 
-use crate::behave::{self, Verdict};
 use crate::dl::{self, DEFAULT_RULES};
 use crate::engine::*;
-use crate::gen::progen::{gen_program, GenOpts};
-use crate::luaprint;
-use crate::luaref::Dialect;
+use crate::gen::progen::GenOpts;
+use crate::props::common::{self, BehaviourSpec};
 use crate::tape::Tape;
-use serde_json::{json, Value};
+use serde_json::Value;
 
 pub fn def() -> PropDef {
     PropDef {
@@ -61,99 +59,30 @@ pub fn gen_configs(t: &mut Tape, n: usize) -> Vec<String> {
     out
 }
 
-pub fn print_program(t: &mut Tape, block: &crate::luasyn::ast::Block, luau: bool) -> String {
-    if t.bool(90) {
-        let mut o = luaprint::LayoutOpts::all(luau);
-        o.trailing_newline = true;
-        luaprint::print_layout(block, t, &o)
-    } else {
-        luaprint::print_plain(block)
-    }
-}
-
-fn plain_cfg(d: Dialect) -> crate::luaref::Config {
-    behave::cfg(d)
-}
-
-pub fn check_one(source: &str, config: &str) -> Result<Verdict, String> {
-    let orig = behave::run_original(source, &plain_cfg)?;
-    let (v, _) = behave::check_rules(source, config, &orig, &plain_cfg);
-    Ok(v)
-}
-
 fn run(ctx: &RunCtx) {
     let mut opts = GenOpts::lua51();
     opts.avoid.const_andor_multi_tail = ctx.avoid("const-andor-multi-tail");
     opts.avoid.underscore_local = ctx.avoid("underscore-local");
-    let n = ctx.tier.pick(4_000, 150_000);
-    ctx.search("programs", n, 700, |tape, st| {
-        let mut t = Tape::new(tape);
-        let prog = gen_program(&mut t, &opts);
-        if opts.avoid.const_andor_multi_tail && crate::visit::has_const_andor_multi_tail(&prog.block) {
-            return CaseResult::Discard("avoided: known finding const-andor-multi-tail");
-        }
-        let source = print_program(&mut t, &prog.block, false);
-        let configs = gen_configs(&mut t, 6);
-        for (k, v) in &prog.stats {
-            st.class_n(k, *v as u64);
-        }
-        let orig = match behave::run_original(&source, &plain_cfg) {
-            Ok(o) => o,
-            Err(e) => return CaseResult::Fail(Failure::new(e, json!({"kind": "harness", "source": source}))),
-        };
-        if orig.lua51.is_none() && orig.luau.is_none() {
-            return CaseResult::Discard("original errors or exceeds the step budget");
-        }
-        let mut nontrivial = None;
-        for config in &configs {
-            let (v, out) = behave::check_rules(&source, config, &orig, &plain_cfg);
-            match v {
-                Verdict::Same { emits, .. } => {
-                    if emits >= 1 && out.as_deref().map(|o| behave::code_changed(&source, o)).unwrap_or(false) {
-                        st.class("nontrivial_config");
-                        nontrivial = Some(hash_parts(&[source.as_bytes(), config.as_bytes()]));
-                    }
-                }
-                Verdict::Discard(why) => return CaseResult::Discard(why),
-                Verdict::Differs(msg) => {
-                    return CaseResult::Fail(Failure::new(
-                        format!("{}\n--- configuration\n{}\n--- source\n{}\n--- output\n{}", msg, config, source, out.unwrap_or_default()),
-                        json!({"kind": "behaviour", "source": source, "config": config}),
-                    ));
-                }
-            }
-        }
-        st.sample(|| json!({"source": source, "configs": configs}));
-        CaseResult::Pass { nontrivial }
-    });
+    let mut filters: Vec<fn(&crate::luasyn::ast::Block) -> Option<&'static str>> = vec![];
+    if opts.avoid.const_andor_multi_tail {
+        filters.push(common::filter_const_andor);
+    }
+    let spec = BehaviourSpec {
+        opts,
+        luau_layout: false,
+        cases: ctx.tier.pick(12_000, 150_000),
+        tape_len: 700,
+        configs: &|t| gen_configs(t, 6),
+        filters,
+        nontrivial: &|_| true,
+    };
+    common::run_behaviour(ctx, "programs", &spec);
 }
 
 fn replay(v: &Value) -> Result<(), String> {
-    let source = v.get("source").and_then(|s| s.as_str()).ok_or("malformed C01 replay")?;
-    let config = v.get("config").and_then(|s| s.as_str()).ok_or("malformed C01 replay")?;
-    match check_one(source, config)? {
-        Verdict::Differs(m) => Err(m),
-        _ => Ok(()),
-    }
-}
-
-/// shared by the behavioural checks: reduce `source` while `still_fails(source)` holds
-pub fn minimize_source(v: &Value, still_fails: &dyn Fn(&str, &Value) -> bool) -> Option<Value> {
-    let source = v.get("source")?.as_str()?;
-    let block = crate::luasyn::parse(source, crate::luasyn::Mode::Luau).ok()?.block;
-    let reduced = crate::reduce::reduce(&block, &|text| still_fails(text, v), 1500);
-    let text = luaprint::print_plain(&reduced);
-    if !still_fails(&text, v) {
-        return None;
-    }
-    let mut out = v.clone();
-    out["source"] = json!(text);
-    Some(out)
+    common::replay_behaviour(v)
 }
 
 fn minimize(v: &Value) -> Option<Value> {
-    minimize_source(v, &|text, v| {
-        let config = v.get("config").and_then(|c| c.as_str()).unwrap_or("{}");
-        matches!(check_one(text, config), Ok(Verdict::Differs(_)))
-    })
+    common::minimize_behaviour(v)
 }
